@@ -15,7 +15,7 @@ def o_process_fork(I, fn, n, args, st):
     child = st.copy()
     child.mon["proc"] = "child"
     child.mon["sigmask"] = fs(("sym", "EMPTY"))
-    pid = ("pid", "process_fork", n["id"])
+    pid = ("pid", "process_fork", 0)
     ok = st.copy()
     ok.mon["proc"] = "parent"
     ok.res[pid] = ("running",)
@@ -134,3 +134,105 @@ def analyse_process_start(ctx, prog):
     ctx.stats("E-ABS", I.stats)
     _ps_cache[key] = (res, F, I)
     return _ps_cache[key]
+
+
+# ------------------------------------------------------------------ process_start summary
+
+def o_process_start(I, fn, n, args, st):
+    """outcome classes of process_start (verified by verify_start_summary):
+    <0 with *process untouched and no child left; 0 in the forked child; 1 with *process = pid of a running child"""
+    ev(I, "process_start", fn, n, args, st)
+    fail = (st, I.neg())
+    child = st.copy()
+    child.mon["proc"] = "child"
+    child.mon["sigmask"] = fs(("sym", "EMPTY"))
+    pid = ("pid", "process_start", 0)
+    ok = st.copy()
+    ok.mon["proc"] = "parent"
+    ok.res[pid] = ("running",)
+    for t in targets(I, args[0]):
+        ok.mem[t] = fs(pid)
+    return [fail, (child, fs(0)), (ok, fs(1))]
+
+
+def classify_start_exit(st, rv, pcell):
+    proc = st.mon.get("proc")
+    pids = [k for k in st.res if k[0] == "pid"]
+    pv = st.mem.get(pcell)
+    if proc == "child":
+        return "child" if rv == fs(0) else None
+    if all_neg(rv):
+        if pv is None and all(st.res[p] in (("reaped",), ("gone",)) for p in pids):
+            return "fail"
+        return None
+    if rv == fs(1) and pv is not None and len(pv) == 1 and next(iter(pv))[0:1] == ("pid",) \
+            and st.res.get(next(iter(pv))) == ("running",):
+        return "ok"
+    return None
+
+
+# ------------------------------------------------------------------ parse_options summary
+
+def o_parse_options(I, fn, n, args, st):
+    """success: every stream has one of the constructible redirect types (STDOUT only for stderr); start-up
+    input data implies a piped stdin, a size implies data.  failure: negative, nothing else changed (the options
+    object is reproc_start's private copy).  Verified against the code by C13 (verify_parse_summary)."""
+    ev(I, "parse_options", fn, n, args, st)
+    P = I.prog
+    T = lambda name: I.abs_int(P.const(name))
+    common = [T("REPROC_REDIRECT_PIPE"), T("REPROC_REDIRECT_PARENT"), T("REPROC_REDIRECT_DISCARD"),
+              T("REPROC_REDIRECT_HANDLE"), T("REPROC_REDIRECT_FILE"), T("REPROC_REDIRECT_PATH")]
+    outs = [(st, I.neg())]
+    for t in targets(I, args[0]):
+        red = ("f", t, "redirect")
+        for data in ("null", "set"):
+            s = st.copy()
+            s.mem[("f", ("f", red, "in"), "type")] = frozenset(common) if data == "null" else fs(T("REPROC_REDIRECT_PIPE"))
+            s.mem[("f", ("f", red, "out"), "type")] = frozenset(common)
+            s.mem[("f", ("f", red, "err"), "type")] = frozenset(common + [T("REPROC_REDIRECT_STDOUT")])
+            inp = ("f", t, "input")
+            if data == "null":
+                s.mem[("f", inp, "data")] = fs("NULL")
+                s.mem[("f", inp, "size")] = fs(0)
+            else:
+                s.mem[("f", inp, "data")] = fs("PTR")
+                s.mem[("f", inp, "size")] = I.nonneg()
+            s.mem[("f", t, "deadline")] = frozenset(a for a in I.TOP_INT if a != 0)
+            outs.append((s, fs(0)))
+    return outs
+
+
+def not_started_object(prog, F, st, pname="process"):
+    p = [x for x in F.params if x["name"] == pname][0]
+    c = ("v", F.gdid(p["did"]))
+    obj = ("d", c)
+    st.mem[c] = fs(("addr", obj))
+    st.mem[("f", obj, "status")] = fs(prog.const("STATUS_NOT_STARTED"))
+    st.mem[("f", obj, "handle")] = fs(prog.const("PROCESS_INVALID"))
+    for f in ("in", "out", "err", "exit"):
+        st.mem[("f", ("f", obj, "pipe"), f)] = fs(prog.const("PIPE_INVALID"))
+    for f in ("out", "err"):
+        st.mem[("f", ("f", obj, "child"), f)] = fs(prog.const("PIPE_INVALID"))
+    st.mem[("f", obj, "deadline")] = fs(prog.const("REPROC_INFINITE"))
+    return obj
+
+
+_rs_cache = {}
+
+
+def analyse_reproc_start(ctx, prog):
+    key = id(prog)
+    if key in _rs_cache:
+        return _rs_cache[key]
+    F = prog.fn("reproc_start")
+    ov = dict(HEAP_HELPERS)
+    ov["process_start"] = o_process_start
+    ov["parse_options"] = o_parse_options
+    I = new_interp(prog, overrides=ov)
+    I.MAX_STATES = 60000
+    st = State()
+    obj = not_started_object(prog, F, st)
+    res = I.run(F, [st])
+    ctx.stats("E-ABS", I.stats)
+    _rs_cache[key] = (res, F, I, obj)
+    return _rs_cache[key]
